@@ -1,7 +1,7 @@
 (* C15 — Untrusted peers cannot crash or bloat the node (decision/arithmetic part of the message handler, the frame
    reader and the packet decoder; goroutine blocking and memory growth are runtime facts explored by the harness).
    Only statements; each is closed by a lemma proved in theories/HandlerProofs.v. *)
-From ZV Require Import Prelude GoSem Paging Handler Frame HandlerProofs Session SessionProofs.
+From ZV Require Import Prelude GoSem Paging Handler Frame HandlerProofs Session SessionProofs BaseMsg BaseMsgProofs.
 From ZV.gen Require Import Consts.
 Open Scope Z_scope.
 
@@ -78,6 +78,47 @@ Theorem C15_open_needs_frames : forall es c, wf_conn c -> (ph c = PWaitStatus \/
   ph (Session.run c es) <> PClosed -> ticks es <= (frames es + 1) * FrameReadTimeoutSec - idle c - 1.
 Proof. exact open_needs_frames. Qed.
 
+(* base protocol: no message code (handshake, disconnect, ping, pong, unused base codes, sub-protocol codes inside
+   and beyond the negotiated range) with no payload - any byte string, read with or without an input limit - makes
+   the dispatcher of a running peer, the run loop's reaction, the handshake reader or setupConn reach a Go panic
+   (the disconnect reason is indexed out of a decode target of one element) *)
+Theorem C15_base_msg_no_panic : forall limited plen size code payload decodes version id_zero id_match caps_match,
+  handle_base limited plen code payload <> HPanic /\ react limited plen code payload <> RPanic /\
+  read_hs limited size code payload decodes version id_zero <> HsPanic /\
+  setup_conn limited size code payload decodes version id_zero id_match caps_match <> SPanic.
+Proof. exact base_msg_no_panic. Qed.
+
+(* whatever bytes a disconnect message carries, the reason read from it is a uint64 *)
+Theorem C15_disc_reason_uint64 : forall limited payload r, pbytes_ok payload ->
+  disc_reason limited payload = Ok r -> 0 <= r < two64.
+Proof. exact disc_reason_range. Qed.
+
+(* the session of a running peer is ended only by a disconnect message or a code outside every negotiated range;
+   handshake, ping, pong and the unused base codes never end it, whatever their payload; a ping is answered *)
+Theorem C15_base_msg_closed_only_by : forall limited plen code payload s,
+  react limited plen code payload = RClosed s -> code = DiscMsg \/ BaseProtocolLength + plen <= code.
+Proof. exact react_closed_only_by. Qed.
+
+(* a connection becomes a peer only through a handshake message of admissible size that decodes, with our version,
+   a non-zero identity equal to the one of the encryption handshake and a matching capability *)
+Theorem C15_peer_added_iff : forall limited size code payload decodes version id_zero id_match caps_match,
+  setup_conn limited size code payload decodes version id_zero id_match caps_match = SAdded <->
+  size <= BaseProtocolMaxMsgSize /\ code = HandshakeMsg /\ decodes = true /\ version = BaseProtocolVersion /\
+  id_zero = false /\ id_match = true /\ caps_match = true.
+Proof. exact setup_added_iff. Qed.
+
+(* of a BlocksMsg nothing reaches the downloader or the fetcher unless every momentum in it hashes to the hash it
+   states (they file a delivered momentum under its stated hash and height); one that does not makes the message a
+   protocol error of its sender *)
+Theorem C15_forged_momentum_not_delivered : forall H size own,
+  (handle H size (RBlocks own) = ONoReply -> Forall (fun b => b = true) own) /\
+  (size <= ProtocolMaxMsgSize -> In false own -> handle H size (RBlocks own) = OErr ErrDecode).
+Proof. intros. split; [apply forged_momentum_not_delivered|apply forged_momentum_is_protocol_error]. Qed.
+(* record (fixed in /repo, d69e7b3): a requested hash stated over another height was handed to the downloader, whose
+   errInvalidChain then cost the honest peer of the synchronisation its connection *)
+Theorem C15_forged_momentum_delivered_refuted : exists own, In false own /\ blocks_delivery_unchecked own = ONoReply.
+Proof. exact forged_momentum_delivered_refuted. Qed.
+
 (* record of finding F2 (fixed in /repo): an unknown hash made GetMomentumsByHash dereference nil *)
 Theorem C15_unknown_hash_panic_refuted :
   exists H amount, 1 <= H /\ in_u64 amount /\ handle_gen false true true H 0 (RGetHashes None amount) = OPanic.
@@ -99,4 +140,16 @@ Example C15_handle_example :
   handle 600 20 (RGetHashesFromNumber 0 0) = OHashes [] /\
   handle 600 20 (RGetHashes None 5) = OHashes [] /\
   handle 600 20 (RGetBlocks [IKnown 3 500; IUnknown; IKnown 7 600]) = OBlocks [3;7] 1100.
+Proof. vm_compute. repeat split; reflexivity. Qed.
+Example C15_base_msg_example :
+  react true 9 PingMsg [192] = RPong /\
+  react true 9 DiscMsg [193; 4] = RClosed (Some 4) /\          (* [DiscTooManyPeers] is echoed *)
+  react true 9 DiscMsg [192] = RClosed (Some 0) /\             (* empty list: reason 0 *)
+  react true 9 DiscMsg [] = RClosed (Some 0) /\
+  react true 9 DiscMsg [193; 1] = RClosed None /\              (* network error: not echoed *)
+  react true 9 DiscMsg [194; 4] = RClosed (Some 0) /\          (* truncated list under an input limit *)
+  react false 9 DiscMsg [194; 4] = RClosed (Some 4) /\         (* the same bytes from a reader without a limit *)
+  react true 9 25 [192] = RClosed None /\ react true 9 24 [192] = RStay /\ react true 9 0 [1;2;3] = RStay /\
+  base_handle_gen 0 true 9 DiscMsg [192] = HPanic /\                (* a decode target without an element panics *)
+  setup_conn true 3 DiscMsg [192] false 0 false false false = SRefused (Some 0).
 Proof. vm_compute. repeat split; reflexivity. Qed.
